@@ -38,6 +38,8 @@ def configs(tier):
     if tier == "quick":
         for p, h, an in (("const", 13.0, False), ("const", None, True), ("most_aniso", 0.0, False), ("mostm_s", 20.0, False)):
             yield {"prof": p, "grid": sl.GRIDS[0][0], "dom": sl.GRIDS[0][1], "halo": h, "modes": "full", "analytic": an, "prec": "single"}
+    for p_, h in itertools.product(sl.AXIS_SETS, (0.0, 13.0)):
+        yield {"prof": p_, "grid": sl.GRIDS[0][0], "dom": sl.GRIDS[0][1], "halo": h, "modes": "full", "analytic": False, "prec": "double"}
     for k, (g, h) in enumerate(itertools.product(sl.ODD_GRIDS, (0.0, 13.0))):
         yield {"prof": ("const", "most_aniso")[k % 2], "grid": g[0], "dom": g[1], "halo": h, "modes": [64, 64], "analytic": False, "prec": "double"}
 
